@@ -684,3 +684,33 @@ Definition upstep (require_terminated : bool) (s : upstream) (e : upev) : upstre
     then (mkup (terminated s) (queued s) true, UOk)
     else (s, UOk)
   end.
+
+(* ------------------------------------------------------------------ *)
+(** * Shutdown polls read the client outside the ready loop
+
+    [Mux::shutting_down] is polled by the server between two [epoll_wait]s and
+    forces a read of the frontend ([drive_frontend_shutdown_io]).  What that
+    read takes from the socket is queued for the backend, whose WRITABLE is
+    armed; but an edge-triggered epoll reports nothing for bytes that are no
+    longer in the socket, so no [ready()] follows.  [serve] = the poll writes
+    out what it armed itself (the repair).  State: bytes of the request in the
+    client socket, bytes queued for the backend, backend WRITABLE armed. *)
+Record sdstate := mksd { sd_socket : N; sd_queued : N; sd_armed : bool }.
+
+Inductive sdev :=
+| SdArrive (n : N)    (* the client's bytes reach the socket *)
+| SdPoll              (* one shutting_down pass *)
+| SdEpoll.            (* epoll_wait + ready() for what it reports *)
+
+Definition sdstep (serve : bool) (s : sdstate) (e : sdev) : sdstate :=
+  match e with
+  | SdArrive n => mksd (sd_socket s + n) (sd_queued s) (sd_armed s)
+  | SdPoll =>
+    if sd_socket s =? 0 then s
+    else if serve then mksd 0 0 false
+    else mksd 0 (sd_queued s + sd_socket s) true
+  | SdEpoll =>
+    (* an edge is reported only while bytes are still in the socket; ready() then
+       reads them and serves every armed connection *)
+    if sd_socket s =? 0 then s else mksd 0 0 false
+  end.
